@@ -85,14 +85,26 @@ def judge(item):
     except Exception as e:
         return [rec("expansion-raises", "generate + simplify with expand_vectors raised", e)], "exc"
     recs = []
-    # 1. names and order
+    # 1. names and order: every list of the unexpanded model keeps its order, each variable replaced in place by the
+    #    scalars the spec derives for it (the order BETWEEN different variables is the flattener's business: C07 / C10)
+    scal = {nm["flat"]: nm["scalars"] for nm in item["namemap"]}
+    scal.update({"der(%s)" % nm["flat"]: nm["derscalars"] for nm in item["namemap"]})
     for gi, g in enumerate(item["groups"]):
-        want = [x["name"] for x in item["expect"][gi]]
-        got = [v.symbol.name() for v in getattr(m1, g)]
-        if g == "inputs":
-            got = [n for n in got if not n.startswith("_pymoca_delay_")]
+        want = []
+        for v in getattr(m0, g):
+            n0 = v.symbol.name()
+            if n0.startswith("_pymoca_delay_"):
+                continue
+            if n0 not in scal:
+                recs.append(rec("expanded-names", "unexpanded variable %s is not a flat variable of the program" % n0, sig=g))
+                continue
+            want += scal[n0]
+        got = [v.symbol.name() for v in getattr(m1, g) if not v.symbol.name().startswith("_pymoca_delay_")]
         if got != want:
             recs.append(rec("expanded-names", "%s: %s expected %s" % (g, got, want), sig=g))
+        if sorted(want) != sorted(x["name"] for x in item["expect"][gi]):
+            recs.append(rec("expanded-names", "%s of the unexpanded model does not hold the variables the spec puts there: %s vs %s" % (
+                g, sorted(want), sorted(x["name"] for x in item["expect"][gi])), sig=g + "-membership"))
     if list(m1.outputs) != list(item["outputs"]):
         recs.append(rec("expanded-outputs", "outputs %s expected %s" % (list(m1.outputs), item["outputs"])))
     if recs:
@@ -113,8 +125,9 @@ def judge(item):
         for gi, g in enumerate(item["groups"]):
             if g == "der_states":
                 continue
-            vars1 = [v for v in getattr(m1, g) if not v.symbol.name().startswith("_pymoca_delay_")]
-            for v, exp in zip(vars1, item["expect"][gi]):
+            vars1 = {v.symbol.name(): v for v in getattr(m1, g)}
+            for exp in item["expect"][gi]:
+                v = vars1[exp["name"]]
                 if k == 0 and flat_of.get(exp["name"]) in types0 and v.python_type is not types0[flat_of[exp["name"]]]:
                     recs.append(rec("expanded-type", "%s has python_type %s, the array had %s" % (exp["name"], v.python_type.__name__, types0[flat_of[exp["name"]]].__name__), sig="type"))
                 for ai, a in enumerate(item["attrs"]):
@@ -203,7 +216,8 @@ def run(ctx):
         probe = next(it for it in items if "attr-array-lit" in it["tags"] and "top" in it["tags"] and it["pts"] and not judge(it)[0])
         bad = copy.deepcopy(probe)
         gi = next(i for i, e in enumerate(bad["expect"]) if len(e) >= 2 and bad["groups"][i] != "der_states")
-        bad["expect"][gi][0]["name"], bad["expect"][gi][1]["name"] = bad["expect"][gi][1]["name"], bad["expect"][gi][0]["name"]
+        nm = next(n for n in bad["namemap"] if len(n["scalars"]) >= 2 and n["flat"] == "a")
+        nm["scalars"][0], nm["scalars"][1] = nm["scalars"][1], nm["scalars"][0]
         if not any(r["observable"] == "expanded-names" for r in judge(bad)[0]):
             raise MachineryError("binding self-test failed: swapped expected names accepted")
         bad = copy.deepcopy(probe)
